@@ -23,6 +23,7 @@ import (
 	"math/rand"
 	"os"
 	"path/filepath"
+	"runtime"
 	"sort"
 	"sync"
 	"sync/atomic"
@@ -566,26 +567,40 @@ func runPlanBatch(w *tr.W, rng *rand.Rand, name string, plan []act, i int) {
 
 // ---------------------------------------------------------------- free-running goroutines
 
-type clog struct {
-	mu  sync.Mutex
-	evs []tr.E
+// sev is one event of a free-running history, stamped with a global atomic sequence number.
+type sev struct {
+	seq  int64
+	kind byte // 'i' inv, 'r' res, 'c' clk, 'p' panic
+	t    int
+	v    int64 // id (res) or clock reading (clk)
+	ovf  bool
+	msg  string
 }
 
-func (c *clog) add(e tr.E) {
-	c.mu.Lock()
-	c.evs = append(c.evs, e)
-	c.mu.Unlock()
+// concStats says how much the calls of the free-running histories really overlapped.
+type concStats struct {
+	calls, overlapped, maxPending int
 }
 
-// runConc: G goroutines call one generator; inv is logged before the call and res after it, both
-// under the log mutex and outside the generator's own lock, so "res(A) precedes inv(B) in the
-// log" implies A returned before B was invoked.  For the wall-clock node the injected clock is
-// moved under the same mutex (clk events), so the reading a call obtained is one of the readings
-// logged between (the last clk before) its inv and its res.
-func runConc(w *tr.W, rng *rand.Rand, kind string, i int, G, perG, skip int) {
+var concByKind = map[string]*concStats{}
+
+// runConc: G goroutines, released together by a spin barrier, call one generator in a tight loop.
+// Every call takes a global sequence number (one atomic add) immediately before it is invoked and
+// another immediately after it returned, outside the generator's own lock; events are kept in
+// per-goroutine buffers and merged by sequence number afterwards.  "res(A).seq < inv(B).seq"
+// implies that A returned before B was invoked, so the merged log is a sound inv/res history.
+//
+// For the wall-clock node ONE mover goroutine changes the injected clock.  A change old -> new is
+// bracketed by two sequence numbers: at the first a clk event with min(old, new) is logged, at the
+// second a clk event with new.  A call therefore never obtained a reading below the smallest clk
+// value logged between (the last clk before) its inv and its res.
+//
+// nano modes: "clock" = GenID() (reads time.Now), "ts" = GenIDByTS, "mixed" = both; the generator
+// starts at 0, at the current time, or ahead of the clock (the clock went back since the last id:
+// every call takes the current+1 path).
+func runConc(w *tr.W, rng *rand.Rand, kind, mode string, i int, G, perG, burners int) {
 	l := pickLayout(rng, i)
 	var gen func(r *rand.Rand) int64
-	var lg clog
 	var rel int64
 	var reset tr.E
 	restores := []func(){}
@@ -594,6 +609,7 @@ func runConc(w *tr.W, rng *rand.Rand, kind string, i int, G, perG, skip int) {
 			f()
 		}
 	}()
+	src := "conc"
 	switch kind {
 	case "hard":
 		restores = append(restores, l.install())
@@ -608,7 +624,7 @@ func runConc(w *tr.W, rng *rand.Rand, kind string, i int, G, perG, skip int) {
 		}
 		n := newHard(l, min)
 		gen = func(*rand.Rand) int64 { return n.Generate() }
-		reset = resetEvent("hard", l, seeded, min, rel, G, "conc")
+		reset = resetEvent("hard", l, seeded, min, rel, G, src)
 	case "mono":
 		l.epoch = monoEpoch(l.epoch)
 		restores = append(restores, l.install())
@@ -617,55 +633,137 @@ func runConc(w *tr.W, rng *rand.Rand, kind string, i int, G, perG, skip int) {
 			tr.Fatal("NewMonoNode: %v", err)
 		}
 		gen = func(*rand.Rand) int64 { return n.Generate() }
-		reset = resetEvent("mono", l, false, 0, 0, G, "conc")
+		reset = resetEvent("mono", l, false, 0, 0, G, src)
 	case "nano":
-		cur := []int64{0, time.Now().UnixNano(), 1 << 61}[rng.Intn(3)]
+		now := time.Now().UnixNano()
+		cur := []int64{now + 3600e9, now, 0, 1 << 61}[(i/4)%4]
 		g := nano.NewUnixNanoID(cur)
-		byClock := i%2 == 0 && cur <= time.Now().UnixNano()
+		base := cur
+		if base < now {
+			base = now
+		}
 		gen = func(r *rand.Rand) int64 {
-			if byClock {
+			if mode == "clock" || (mode == "mixed" && r.Intn(2) == 0) {
 				return g.GenID()
 			}
-			return g.GenIDByTS(cur + r.Int63n(64) - 8)
+			return g.GenIDByTS(base + r.Int63n(64) - 8)
 		}
-		reset = resetEvent("nano", layout{}, false, 0, 0, G, "conc")
+		src = "conc-" + mode
+		reset = resetEvent("nano", layout{}, false, 0, 0, G, src)
 	}
+	var seq int64
+	var ready, done int32
+	bufs := make([][]sev, G+1)
 	var wg sync.WaitGroup
-	start := make(chan struct{})
+	barrier := func() {
+		atomic.AddInt32(&ready, 1)
+		for n := 0; atomic.LoadInt32(&ready) < int32(G); n++ {
+			if n%2000 == 1999 {
+				runtime.Gosched()
+			}
+		}
+	}
 	for t := 1; t <= G; t++ {
 		wg.Add(1)
 		r := rand.New(rand.NewSource(rng.Int63()))
 		go func(t int, r *rand.Rand) {
 			defer wg.Done()
-			<-start
+			defer atomic.AddInt32(&done, 1)
+			buf := make([]sev, 0, 2*perG+2)
+			defer func() { bufs[t] = buf }()
+			barrier()
 			for k := 0; k < perG; k++ {
-				if kind == "hard" && r.Intn(6) == 0 {
-					lg.mu.Lock()
-					nr := clampRel(l, atomic.LoadInt64(&rel)+[]int64{1, 1, -1, -3, 2, 1000, -1000}[r.Intn(7)])
-					atomic.StoreInt64(&rel, nr)
-					lg.evs = append(lg.evs, tr.E{"ev": "clk", "now": limbs(nr)})
-					lg.mu.Unlock()
-				}
-				// unlogged calls are legitimate use too; they raise the request rate so that the
-				// step counter wraps (MonoNode's spin path) without flooding the log
-				for s := 0; s < skip; s++ {
-					safeGen(func() int64 { return gen(r) })
-				}
-				lg.add(tr.E{"ev": "inv", "t": t})
+				s1 := atomic.AddInt64(&seq, 1)
 				id, p := safeGen(func() int64 { return gen(r) })
+				s2 := atomic.AddInt64(&seq, 1)
+				buf = append(buf, sev{seq: s1, kind: 'i', t: t})
 				if p != "" {
-					lg.add(tr.E{"ev": "panic", "t": t, "msg": p})
+					buf = append(buf, sev{seq: s2, kind: 'p', t: t, msg: p})
 					return
 				}
-				lg.add(tr.E{"ev": "res", "t": t, "id": limbs(id), "nsovf": kind == "hard" && l.nsovf(atomic.LoadInt64(&rel))})
+				buf = append(buf, sev{seq: s2, kind: 'r', t: t, v: id,
+					ovf: kind == "hard" && l.nsovf(atomic.LoadInt64(&rel))})
 			}
 		}(t, r)
 	}
-	close(start)
+	// burners: extra callers whose ids are not logged (legitimate use too); they raise the request
+	// rate so that the step counter wraps (MonoNode's spin path) without flooding the log
+	for b := 0; b < burners; b++ {
+		r := rand.New(rand.NewSource(rng.Int63()))
+		go func(r *rand.Rand) {
+			for atomic.LoadInt32(&done) < int32(G) {
+				for k := 0; k < 64; k++ {
+					safeGen(func() int64 { return gen(r) })
+				}
+			}
+		}(r)
+	}
+	if kind == "hard" {
+		// the single clock mover
+		mr := rand.New(rand.NewSource(rng.Int63()))
+		for atomic.LoadInt32(&ready) < int32(G) {
+			runtime.Gosched()
+		}
+		var buf []sev
+		for n := 0; atomic.LoadInt32(&done) < int32(G) && n < 150; n++ {
+			old := atomic.LoadInt64(&rel)
+			nr := clampRel(l, old+[]int64{1, 1, -1, -3, 2, 1000, -1000}[mr.Intn(7)])
+			lo := old
+			if nr < lo {
+				lo = nr
+			}
+			s1 := atomic.AddInt64(&seq, 1)
+			atomic.StoreInt64(&rel, nr)
+			s2 := atomic.AddInt64(&seq, 1)
+			buf = append(buf, sev{seq: s1, kind: 'c', v: lo}, sev{seq: s2, kind: 'c', v: nr})
+			for y := 0; y < 20+mr.Intn(200); y++ {
+				runtime.Gosched()
+			}
+		}
+		bufs[0] = buf
+	}
 	wg.Wait()
+	var all []sev
+	for _, b := range bufs {
+		all = append(all, b...)
+	}
+	sort.Slice(all, func(a, b int) bool { return all[a].seq < all[b].seq })
+	// overlap statistics: a call overlapped if another call was pending at some point of it
+	st := concByKind[kind]
+	if st == nil {
+		st = &concStats{}
+		concByKind[kind] = st
+	}
+	pending := map[int]bool{} // thread -> its pending call already counted as overlapped
 	w.Emit(reset)
-	for _, e := range lg.evs {
-		w.Emit(e)
+	for _, e := range all {
+		switch e.kind {
+		case 'i':
+			st.calls++
+			over := len(pending) > 0
+			for t, o := range pending {
+				if !o {
+					pending[t] = true
+					st.overlapped++
+				}
+			}
+			pending[e.t] = over
+			if over {
+				st.overlapped++
+			}
+			if len(pending) > st.maxPending {
+				st.maxPending = len(pending)
+			}
+			w.Emit(tr.E{"ev": "inv", "t": e.t})
+		case 'r':
+			delete(pending, e.t)
+			w.Emit(tr.E{"ev": "res", "t": e.t, "id": limbs(e.v), "nsovf": e.ovf})
+		case 'p':
+			delete(pending, e.t)
+			w.Emit(tr.E{"ev": "panic", "t": e.t, "msg": e.msg})
+		case 'c':
+			w.Emit(tr.E{"ev": "clk", "now": limbs(e.v)})
+		}
 	}
 }
 
@@ -681,7 +779,7 @@ func main() {
 	monoCalls := flag.Int("monocalls", 9000, "calls per MonoNode run")
 	nnano := flag.Int("nano", 40, "sequential nano histories")
 	nconc := flag.Int("nconc", 12, "free-running histories")
-	perG := flag.Int("perg", 150, "logged calls per goroutine in free-running histories")
+	perG := flag.Int("perg", 200, "logged calls per goroutine in free-running histories")
 	flag.Parse()
 	rng := rand.New(rand.NewSource(*seed))
 
@@ -715,14 +813,23 @@ func main() {
 	cw := tr.Create(*conc)
 	cw.NoSync = true
 	for i := 0; i < *nconc; i++ {
-		kind := []string{"hard", "mono", "nano"}[i%3]
-		G := []int{8, 2, 4, 3}[(i/3)%4]
-		skip := 0
-		if kind == "mono" {
-			skip = 40
+		G := []int{8, 4, 16, 6}[(i/2)%4]
+		switch i % 4 {
+		case 0:
+			runConc(cw, rng, "nano", "clock", i, G, *perG*5/2, 0)
+		case 1:
+			runConc(cw, rng, "hard", "", i, G, *perG, 0)
+		case 2:
+			runConc(cw, rng, "mono", "", i, G, *perG*2, 2*((i/4)%2))
+		default:
+			runConc(cw, rng, "nano", []string{"mixed", "ts"}[(i/4)%2], i, G, *perG*5/2, 0)
 		}
-		runConc(cw, rng, kind, i, G, *perG, skip)
 	}
 	cw.Close()
+	for _, k := range []string{"hard", "mono", "nano"} {
+		if st := concByKind[k]; st != nil {
+			fmt.Printf("overlap kind=%s calls=%d overlapped=%d maxpending=%d\n", k, st.calls, st.overlapped, st.maxPending)
+		}
+	}
 	fmt.Printf("seq_events=%d conc_events=%d\n", w.N(), cw.N())
 }
